@@ -115,6 +115,61 @@ def gen_scenario(rng, fault_bias=0.5, attr=True):
     return {'ports': ports, 'steps': steps}
 
 
+LOAD_SITES = ['read', 'read', 'read', 'hb', 'enable']     # load-time fault sites that /repo contains (see notes: the
+                                                           # attribute getters and the write of a persisted value are findings)
+
+
+def gen_load_scenario(rng):
+    """start-up path: configuration from the persistence layer, faults in force from construction on, one load() batch;
+    further batches (with a faulty member between healthy ones) are loaded in the middle of the scenario"""
+    sc = gen_scenario(rng, attr=False)
+    sc['load_mode'] = True
+    # no outside change of what an expression port's driver reads: a forced evaluation would write it back at an instant that
+    # depends on passes triggered by the faulty ports (see c15_worker.diff_views)
+    exprs = {p['id'] for p in sc['ports'] if p['expr'] is not None}
+    sc['steps'] = [st for st in sc['steps'] if not (st[0] == 'set' and st[1] in exprs)]
+    for p in sc['ports']:
+        if p['faulty']:
+            p['persisted'] = False
+            if rng.random() < 0.85:
+                p['enabled'] = True
+                p['fault0'] = {rng.choice(LOAD_SITES): rng.choice(FAULTS)}
+    healthy = [p['id'] for p in sc['ports'] if not p['faulty'] and p['expr'] is None]
+    nb = 0
+    for _ in range(rng.choice([0, 1, 1, 2])):
+        # a batch of 2-4 new ports; at least one faulty, placed at a random position
+        k = rng.randint(2, 4)
+        batch = []
+        fpos = rng.randrange(k)
+        # enabling ANY port forces the evaluation of all expressions at the next pass (core/ports.py enable(), by design): the
+        # batch therefore always contains an enabled healthy port, so that this happens with and without the faulty members
+        hpos = rng.choice([i for i in range(k) if i != fpos])
+        for i in range(k):
+            pid = 'n%d' % nb
+            nb += 1
+            faulty = i == fpos or (i != hpos and rng.random() < 0.15)
+            expr = None
+            if healthy and rng.random() < 0.4:
+                expr = ['port', rng.choice(healthy)]
+            spec = {'id': pid, 'enabled': True if (faulty or i == hpos) else rng.random() < 0.9, 'writable': expr is not None or rng.random() < 0.5,
+                    'internal': False, 'persisted': False, 'expr': expr, 'init': rng.randint(0, 9), 'faulty': faulty}
+            if faulty and rng.random() < 0.9:
+                spec['fault0'] = {rng.choice(LOAD_SITES): rng.choice(FAULTS)}
+            batch.append(spec)
+        ticks = [i for i, st in enumerate(sc['steps']) if st[0] == 'tick']
+        at = rng.choice(ticks) + 1 if ticks else len(sc['steps'])
+        sc['steps'].insert(at, ['load', batch])
+        new_plain = [b['id'] for b in batch if b['expr'] is None]
+        # the new ports take part in what follows
+        for j in range(at + 1, len(sc['steps'])):
+            st = sc['steps'][j]
+            if st[0] == 'set' and new_plain and rng.random() < 0.3:
+                sc['steps'][j] = ['set', rng.choice(new_plain), st[2]]
+        sc['steps'].append(['set', rng.choice(new_plain), rng.randint(0, 9)]) if new_plain else None
+        sc['steps'].append(['tick', rng.choice(DTS)])
+    return sc
+
+
 # ----------------------------------------------------------------------------------------------------------------
 # worker processes
 
@@ -208,7 +263,7 @@ def case_text(sc, run, idx, healthy):
     """one `mkCase ...` from a scenario and the log of its run on the implementation"""
     ports = []
     for ps in sc['ports']:
-        last, drv, parked = run['init'][ps['id']]
+        last, drv, parked = run['init'][ps['id']][:3]
         ports.append('mkPort %d %s %s %s %s %s %s []' % (
             idx[ps['id']], coq.boolean(ps.get('enabled', True)), coq.boolean(ps.get('internal')), c_expr(ps.get('expr'), idx),
             c_val(drv), c_val(last), '(Some 0)' if parked else 'None'))
@@ -295,6 +350,14 @@ def model_tie(ctx, res, items, tag):
             })
 
 
+def all_specs(sc):
+    specs = list(sc['ports'])
+    for st in sc['steps']:
+        if st[0] == 'load':
+            specs += st[1]
+    return specs
+
+
 def fault_sites(sc):
     s = set()
     for st in sc['steps']:
@@ -302,6 +365,10 @@ def fault_sites(sc):
             for site, k in st[2].items():
                 if k:
                     s.add(site)
+    for p in all_specs(sc):
+        for site, k in (p.get('fault0') or {}).items():
+            if k:
+                s.add('load-' + site)
     return sorted(s)
 
 
@@ -315,7 +382,7 @@ def escaped(run):
 def stats(sc, pr, dist):
     fr = pr['faulty_run']
     log = fr.get('log') or []
-    H = {p['id'] for p in sc['ports'] if not p.get('faulty')}
+    H = {p['id'] for p in all_specs(sc) if not p.get('faulty')}
     fired = 0
     retries = 0
     parked = set()
@@ -373,6 +440,14 @@ def handle_pairs(ctx, res, scenarios, results, tag, seen, max_shrink=2):
             res['tie_failures'].append({'note': 'scenario failed in the harness worker', 'run': label, 'error': pr['error'],
                                         'trace': pr.get('trace'), 'scenario': sc})
             continue
+        if sc.get('load_mode'):
+            dist['load_time_scenarios'] = dist.get('load_time_scenarios', 0) + 1
+            dist['load_batches'] = dist.get('load_batches', 0) + 1 + sum(1 for st in sc['steps'] if st[0] == 'load')
+            for p in all_specs(sc):
+                for site, k in (p.get('fault0') or {}).items():
+                    dist['%s@load-%s' % (k, site)] = dist.get('%s@load-%s' % (k, site), 0) + 1
+            if pr['faulty_run'].get('load_failed'):
+                dist['runs_with_a_failed_load'] = dist.get('runs_with_a_failed_load', 0) + 1
         if pr['faulty_run'].get('stuck'):
             dist['runs_with_a_stuck_pass'] = dist.get('runs_with_a_stuck_pass', 0) + 1
         nontrivial = stats(sc, pr, dist)
@@ -409,9 +484,12 @@ def handle_pairs(ctx, res, scenarios, results, tag, seen, max_shrink=2):
                 continue
             res['violations'].append({
                 'key': {'oracle': 'paired-run', 'fault_sites': '+'.join(fault_sites(small)),
-                        'escaped_update': escaped(spair['faulty_run']), 'stuck': bool(spair['faulty_run'].get('stuck'))},
-                'what': 'healthy ports behave differently with the faulty ports present (fault sites: %s%s%s): first differing '
+                        'escaped_update': escaped(spair['faulty_run']), 'stuck': bool(spair['faulty_run'].get('stuck')),
+                        'load_failed': bool(spair['faulty_run'].get('load_failed'))},
+                'what': 'healthy ports behave differently with the faulty ports present (fault sites: %s%s%s%s): first differing '
                         'observable "%s"' % ('+'.join(fault_sites(small)) or '-',
+                                             '; core_ports.load() of a batch failed: %s' % spair['faulty_run']['load_failed'][0]['error']
+                                             if spair['faulty_run'].get('load_failed') else '',
                                              '; an exception escaped main.update()' if escaped(spair['faulty_run']) else '',
                                              '; a polling pass / API call never finished (every port frozen)'
                                              if spair['faulty_run'].get('stuck') else '',
@@ -420,6 +498,8 @@ def handle_pairs(ctx, res, scenarios, results, tag, seen, max_shrink=2):
                 'observed': spair['diff'],
             })
             continue     # a run that contradicts the specification is not expected to follow the model
+        if sc.get('load_mode'):
+            continue     # loading is outside the Coq model (it starts from the settled state): paired oracle only
         items.append((label + ':faulty', sc, pr['faulty_run'], idx, healthy))
         ref = {'ports': [p for p in sc['ports'] if not p.get('faulty')], 'steps': sc['steps']}
         items.append((label + ':reference', ref, pr['reference_run'], idx, healthy))
@@ -457,7 +537,7 @@ def check(ctx, res):
         handle_pairs(ctx, res, scs, run_pairs(ctx, scs, 'corpus'), 'corpus', seen)
         res['distribution']['corpus_cases'] = len(scs)
     n = ctx.n(200, 10000)
-    scenarios = [gen_scenario(ctx.rng) for _ in range(n)]
+    scenarios = [gen_load_scenario(ctx.rng) if i % 4 == 3 else gen_scenario(ctx.rng) for i in range(n)]
     batch = 1000
     for b in range(0, n, batch):
         part = scenarios[b:b + batch]
@@ -465,8 +545,12 @@ def check(ctx, res):
         if res['violations'] and b + batch < n and len(res['violations']) > 50:
             break
     try:
-        res['extra']['timing_probes'] = {k: v for k, v in run_worker(ctx, 'probes', None, 'probes').items()
-                                         if k.startswith('timing:')}
+        probes = run_worker(ctx, 'probes', None, 'probes')
+        res['extra']['timing_probes'] = {k: v for k, v in probes.items() if k.startswith('timing:')}
+        # reported, not part of the verdict (findings F-C15-3 in notes/C15.md)
+        res['extra']['load_time_probes'] = {k: ('healthy ports unaffected' if v['diff'] is None and not v['error'] else
+                                                {'healthy ports AFFECTED': v['diff'], 'load_failed': v['load_failed'], 'error': v['error']})
+                                            for k, v in probes.items() if k.startswith('load:')}
     except Exception as e:  # noqa: BLE001
         res['extra']['timing_probes'] = 'failed: %s' % e
     res['extra']['impl_and_tie_wall_s'] = round(time.time() - t0, 2)
@@ -476,7 +560,7 @@ def search(ctx, res):
     """a proof or the tie broke and check() found no failing input: look harder (10x, more faults, longer histories)"""
     seen = set()
     n = ctx.n(2000, 20000)
-    scenarios = [gen_scenario(ctx.rng, fault_bias=0.8) for _ in range(n)]
+    scenarios = [gen_load_scenario(ctx.rng) if i % 4 == 3 else gen_scenario(ctx.rng, fault_bias=0.8) for i in range(n)]
     for b in range(0, n, 1000):
         part = scenarios[b:b + 1000]
         handle_pairs(ctx, res, part, run_pairs(ctx, part, 'search%d' % b), 'search%d' % b, seen)
